@@ -455,8 +455,9 @@ def _upsert(existing, wanted):
 
     import cdd.sqlalchemy.emit  # noqa: F401  (import order)
 
-    if _UP_ROOT[0] is None:
-        _UP_ROOT[0] = tempfile.mkdtemp(prefix="chx_c10_")
+    if _UP_ROOT[0] is None:  # (pid in the name: under the engine `random` is patched to fixed values, so mkdtemp alone gives the SAME name in every process)
+        _UP_ROOT[0] = os.path.join(tempfile.gettempdir(), "chx_c10_%d" % os.getpid())
+        os.makedirs(_UP_ROOT[0], exist_ok=True)
         atexit.register(shutil.rmtree, _UP_ROOT[0], True)
         with open(os.path.join(_UP_ROOT[0], "models.py"), "wt") as f:
             f.write(UP_MODEL)
@@ -497,8 +498,8 @@ def nd_upsert_routes_replay(existing, wanted, k0, k1, k2):
 
 
 for _ex in range(8):
-    ob("C10", "nd.upsert_routes.e%d" % _ex, {"existing": R(_ex, _ex), "wanted": R(1, 7), "k0": R(0, 5), "k1": R(0, 5), "k2": R(0, 1)}, T=900, tpath=120, replay=nd_upsert_routes_replay,
-       tier="quick" if _ex in (0, 1, 2, 4) else "thorough",
+    ob("C10", "nd.upsert_routes.e%d" % _ex, {"existing": R(_ex, _ex), "wanted": R(1, 7), "k0": R(0, 5), "k1": R(0, 5), "k2": R(0, 1)}, enum=True, T=900, tpath=120, replay=nd_upsert_routes_replay,
+       tier="quick",
        funcs=["cdd.compound.openapi.gen_routes.gen_routes", "cdd.compound.openapi.gen_routes.upsert_routes"], assumes=[ND_ASSUME],
        bound="a routes file holding the routes %r of one model receives ANY non-empty requested subset of {create, read, destroy} (history of two upserts); the first three set "
              "iterations permuted by the solver: the resulting file text is the same as under the canonical order" % (_crud(_ex) or "none yet",))(nd_upsert_routes)
@@ -595,3 +596,27 @@ for _f2 in HIST_FORMATS:
        assumes=["SOLVER-ENUMERATED: the four arguments are the only symbolic values; once a path has fixed them the emitters run untraced on the real objects"],
        bound="ONE interface description object (parameter of type among %r, default present/absent, with or without an explicit [PK] column) is emitted by ANY of the %d emitters and then "
              "as %s (solver-enumerated): the description is unchanged by the first emitter and the second emission equals the emission from a fresh copy" % (SHARED_TYPES, len(HIST_FORMATS), _f2))(_shared(_f2))
+
+
+# ------------------------------------------------------------------------------- call history: the SAME gen_module call twice in one process
+def gen_twice_same(mask, infer, between):
+    """two identical gen_module calls (optionally with an unrelated one in between) give byte-identical modules"""
+    def once(m, i):
+        try:
+            return _dump(_gen(m, i))
+        except Exception as e:
+            return "raised %s" % type(e).__name__
+
+    a = once(mask, infer)
+    if between:
+        once(between, True)
+    b = once(mask, infer)
+    if a != b:
+        return "the same gen_module call gives a different module the second time in one process (first %d bytes, second %d bytes of AST dump)" % (len(a), len(b))
+    return ""
+
+
+ob("C10", "hist.gen_twice", {"mask": R(1, 7), "infer": BOOL, "between": R(0, 7)}, enum=True, isolated=True, T=1500,
+   funcs=["cdd.compound.gen_utils.gen_module", "cdd.shared.ast_utils.infer_imports", "cdd.shared.ast_utils.optimise_imports"],
+   bound="gen_module on ANY non-empty subset of three class entries, import inference on/off, called twice in ONE fresh process with nothing or another subset generated in between "
+         "(solver-enumerated): the two results are identical")(gen_twice_same)
